@@ -782,6 +782,7 @@ def run_C05(tier, rng, stats):
                 res['violations'].insert(0, {'kind': 'non-finite-as-error', 'cases': [list(c)], 'observed': x, 'profile': prof,
                                              'why': 'a well-formed IEEE expression returned %s instead of a value' % vlib.strip_ticks(x)})
     l0_f64(tier, rng, stats, res)
+    merge(res, ph_history('C05', tier, rng, stats, evs=['f64']))
     return res
 
 def i64_lits():
@@ -892,7 +893,28 @@ def run_C18(tier, rng, stats):
     stats['rule'] = ('Number::from on every power of two +-1 ulp, x1.5, +0.5, +-2^63 and neighbours, +-0, subnormals, NaNs, infinities, halves, and %d uniformly random bit patterns; '
                      'Number::from(i64) on extremes and random values; non-trivial = every case (no error outcome exists)' % (4000 if tier == 'quick' else 200000))
     cases, outs, model = run_streams(cs, stats, profiles=('debug', 'release'))
-    return std_judge('C18', cases, outs, model)
+    res = std_judge('C18', cases, outs, model)
+    # "Float(v) with v's bits unchanged": the wire format (and the single-NaN model) identify all NaNs, so NaN payloads are checked
+    # directly -- signalling and quiet NaNs of both signs with boundary and random payloads must come back with the very same bits
+    nb = {'7ff0000000000001', 'fff0000000000001', '7ff4000000000000', 'fff4000000000000', '7ff7ffffffffffff', 'fff7ffffffffffff',
+          '7ff8000000000000', 'fff8000000000000', '7ff8000000000001', 'fff8000000000001', '7fffffffffffffff', 'ffffffffffffffff',
+          '7ff0000080000000', '7ff0000100000000', 'fff00000ffffffff'}
+    for _ in range(300 if tier == 'quick' else 20000):
+        m = rng.next() & ((1 << 52) - 1)
+        nb.add('%016x' % (((rng.next() & 1) << 63) | (0x7ff << 52) | (m or 1)))
+    nl = [('number', 'from_f64_raw', b, '-') for b in sorted(nb)]
+    nn = nd = 0
+    for prof in ('debug', 'release'):
+        got = vlib.run_impl(['\t'.join(c) for c in nl], prof)
+        for c, x in zip(nl, got):
+            nn += 1
+            if vlib.strip_ticks(x) != 'OK F' + c[2]:
+                nd += 1
+                res['violations'].insert(0, {'kind': 'nan-bits-changed', 'cases': [list(c)], 'profile': prof, 'observed': x, 'expected': 'OK F' + c[2],
+                                             'why': 'Number::from(f64::from_bits(0x%s)) (%s build) returns %s: a NaN must come back as Float with its bits unchanged' % (c[2], prof, vlib.strip_ticks(x))})
+    res['levels']['nan-payload-bits'] = (nn, nd)
+    stats['evaluations'] = stats.get('evaluations', 0) + nn
+    return res
 
 PROPS = {}
 for _p in ['C01', 'C02', 'C03', 'C04', 'C05', 'C06', 'C09', 'C18']:
@@ -1461,6 +1483,54 @@ def lit_of_ph(ev, ph):
         return '(' + s + ')' if not neg else '(-' + s + ')'
     return None
 
+# ============================================================================ placeholder histories on one worker thread
+def ph_history(pid, tier, rng, stats, evs=EVS):
+    """One formula evaluated consecutively ON ONE WORKER THREAD under a sweep of placeholders (forwards, then backwards, so every
+    adjacent pair of pool values meets in both orders; +0.0 / -0.0 and equal-valued decimals of different scale are adjacent),
+    for short formulas and for the same formulas padded beyond 32 and 64 characters and with different white space: the value may
+    depend on the current placeholder only (a per-thread memo keyed on the text, or comparing placeholders with ==, shows up here).
+    The implementation runs unsharded (a single impl_runner process, one worker thread); the model is the oracle."""
+    lines, cases = [], []
+    for ev in evs:
+        pool = gen.ph_pool(ev)
+        if tier == 'quick':
+            pool = pool[:14]
+        if ev == 'f64':
+            pool = [f2w(0.0), f2w(-0.0), f2w(0.0)] + pool
+        if ev == 'number':
+            pool = ['F' + f2w(0.0), 'F' + f2w(-0.0), 'I0', 'F' + f2w(0.0)] + pool
+        if ev == 'decimal':
+            pool = ['1/0', '10/1', '100/2', '1/0', '-0/1', '0/0'] + pool
+        sweep = pool + pool[::-1][1:]
+        div = '7/@' if ev == 'i64' else '1/@'
+        base = ['@', '-@', div, '@*3', '@+1', '@-@', '2*@+1', '(@)*(@)', '@*1.10+0.1' if ev not in ('i64',) else '@*11+1']
+        if ev != 'complex':
+            base += ['abs(@)']
+        if ev in ('f64', 'number'):
+            base += ['sqrt(@)']
+        forms = []
+        for e in base:
+            forms.append(e)
+            forms.append('(' + e + ')' + '*1' * 16)          # >= 32 characters, sign of zero / NaN / scale preserved
+            forms.append('( ' + e + ' )' + ' * 1' * 32)      # >= 64 characters after stripping, blanks in between
+        for e in forms:
+            for ph in sweep:
+                c = case(ev, 'eval', ph, e)
+                cases.append(c); lines.append('\t'.join(c))
+    outs = {}
+    for prof in ('debug', 'release'):
+        exe = os.path.join(vlib.ROOT, 'harness/target', prof, 'impl_runner')
+        outs[prof] = vlib.run_sharded([exe, str(2**62), '4000'], lines, shards=1)
+    model = vlib.run_model(lines)
+    stats['evaluations'] = stats.get('evaluations', 0) + 3 * len(lines)
+    res = std_judge(pid, cases, outs, model)
+    for (prof, i), v in zip(res['disagreements'], res['violations']):
+        if i > 0:      # the replay needs the call that came directly before on the same thread
+            v['cases'] = [list(cases[i - 1]), list(cases[i])]
+            v['why'] += ' -- second of two consecutive calls on one thread (the first call is the preceding case of the replay)'
+    res['levels'] = {'placeholder-history/' + k: v for k, v in res['levels'].items()}
+    return res
+
 def run_C14(tier, rng, stats):
     pairs = []
     n = 400 if tier == 'quick' else 4000
@@ -1504,6 +1574,7 @@ def run_C14(tier, rng, stats):
     res = run_pairs('C14', pairs, stats)
     cases, outs, model = run_streams(cs, stats)
     merge(res, std_judge('C14', cases, outs, model))
+    merge(res, ph_history('C14', tier, rng, stats))
     for prof, impl in outs.items():
         for c, x in zip(cases, impl):
             want = 'OK ' + (c[2] if not (c[0] == 'f64' and c[2].lower().startswith('7ff8')) else '7ff8000000000000')
@@ -1557,6 +1628,16 @@ def run_C20(tier, rng, stats):
                     first.append(case(ev, 'eval', None, E))
                     for C in parents:
                         triples.append((ev, C, E, gen.default_ph(ev)))
+    # the hole at every bracket depth 1..400 (far beyond the 256-character inputs of C01): a nesting limit or depth-dependent
+    # behaviour of the parser makes C[(E)] differ from C[@] in a band of depths
+    for ev in EVS:
+        first.append(case(ev, 'eval', None, '1+2'))
+        kinds = [('(', ')')] + ([('⌊', '⌋'), ('⌈', '⌉')] if gen.HAS_FLOORBR[ev] else []) + [('abs(', ')')]
+        for o, c_ in kinds:
+            for d in range(1, 401 if o != 'abs(' else 201):
+                if tier == 'quick' and o != '(' and d % 3:
+                    continue
+                triples.append((ev, o * d + '@*2' + c_ * d, '1+2', gen.default_ph(ev)))
     first += s_fusion(tier, rng) + s_fusion3(tier, rng)
     cases, outs, model = run_streams(first, stats)
     res = std_judge('C20', cases, outs, model)
